@@ -222,6 +222,9 @@ func (c *compiler) compileLabeledDoWhileStatement(v *ast.DoWhileStatement, needR
 		needResult: needResult,
 	}
 
+	if needResult {
+		c.emit(clearResult) // V = undefined: a body left by break/continue before producing a value must not keep an older one
+	}
 	start := len(c.p.code)
 	c.compileStatement(v.Body, needResult)
 	c.block.cont = len(c.p.code)
